@@ -94,6 +94,12 @@ class Executor(Exec):
                 if isinstance(cur, VMap):
                     args, kwargs = self.eval_args(node, st)
                     return self.map_mutate(st, loc, cur, f.attr, args)
+        if isinstance(f, ast.Attribute) and f.attr in ("seek", "read") and isinstance(f.value, ast.Name):
+            rf = st.env.get(f.value.id)
+            if isinstance(rf, VOpaque) and rf.desc == "readfile":
+                from . import streams
+                args, kwargs = self.eval_args(node, st)
+                return streams.readfile_method(self, st, rf, f.attr, args, f.value)
         if isinstance(f, ast.Attribute) and f.attr in FILE_METHODS:
             loc = self.try_loc(f.value, st)
             if loc is not None:
@@ -102,10 +108,22 @@ class Executor(Exec):
                 if isinstance(cur, VFilePtr):
                     from . import streams
                     args, kwargs = self.eval_args(node, st)
+                    if f.attr == "fileno":
+                        o = VOpaque("fileno")
+                        o.path = getattr(cur, "_path", None)
+                        return o
                     return streams.fileptr_method(self, st, loc, cur, f.attr, args)
                 if isinstance(cur, VSeq) and cur.kind == "mmap" and f.attr in ("flush", "close"):
-                    self.lib_used.add("mmap.flush()/close(): no effect on the mapped file's bytes (MAP_SHARED stores "
-                                      "are already file contents at the level of this model)")
+                    self.lib_used.add("mmap (MAP_SHARED): stores into the mapping ARE the file's bytes; flush() changes "
+                                      "nothing at this level; once the mapping is closed the file at the owner's "
+                                      "_filepath holds exactly the mapped bytes (ghost link: the mapping of an on-disk "
+                                      "filter maps the file at its _filepath)")
+                    if f.attr == "close" and loc[0] == "vfield":
+                        from . import streams
+                        owner = self.read(st, loc[1])
+                        pth = owner.fields.get("_filepath") if isinstance(owner, VStruct) else None
+                        if isinstance(pth, VStr):
+                            streams.fs_store(self, st, pth, cur)
                     return VNone()
         fv = self.eval(f, st)
         args, kwargs = self.eval_args(node, st)
@@ -500,6 +518,13 @@ class Executor(Exec):
         return res
 
     def havoc_path(self, st, path, env):
+        if path == "fs":
+            from . import streams
+            d, l, e = streams.fs_state(st)
+            st.fs = (z3.Const(fresh_name("fs_data"), d.sort()), z3.Const(fresh_name("fs_len"), l.sort()),
+                     z3.Const(fresh_name("fs_exists"), e.sort()))
+            st.nwrites[0] += 1
+            return None
         tree = ast.parse(path, mode="eval").body
         saved = (st.env, self.module, self.defcls)
         st.env = dict(env)
@@ -555,6 +580,8 @@ class Executor(Exec):
             if name == "isascii":
                 from . import lib_models
                 return VBool(lib_models.is_ascii(recv.t))
+            if name == "name_attr":
+                pass
             if name in ("exists", "expanduser", "resolve"):
                 from . import streams
                 self.lib_used.add("pathlib: Path(p).exists() reads the modelled file system; expanduser()/resolve() "
@@ -747,6 +774,7 @@ class Executor(Exec):
             nxt = []
             for cur in states:
                 for x, status in self.exec_stmt(s, cur):
+                    self.pointwise_check(x, s)
                     if status == "normal":
                         nxt.append(x)
                     else:
@@ -755,6 +783,17 @@ class Executor(Exec):
             if not states:
                 break
         return [(x, "normal") for x in states] + escaped
+
+    def pointwise_check(self, st, s):
+        c = self.contract
+        if c is None or not c.pointwise or self.dry or self.spec or getattr(self, "in_inline", 0):
+            return
+        if isinstance(s, (ast.For, ast.While, ast.If, ast.With)):
+            return            # compound statements: their inner statements are the points
+        env = dict(getattr(self, "env0", {}))
+        for name, text in c.pointwise:
+            g = self.spec_truth(st, text, env, f"{c.key}.pointwise.{name}")
+            self.oblige(st, f"after_L{getattr(s, 'lineno', 0)}.pointwise.{name}", g, "pointwise")
 
     def exec_stmt(self, s, st):
         if hasattr(s, "lineno"):
@@ -774,7 +813,7 @@ class Executor(Exec):
         return [(st, "normal")]
 
     def s_Assert(self, s, st):
-        c = self.truth(st, self.eval(s.test, st))
+        c = self.cond(s.test, st)
         self.oblige(st, f"L{s.lineno}.assert", c, "assert")
         st.pc.append(c)
         return [(st, "normal")]
@@ -807,7 +846,7 @@ class Executor(Exec):
         return [(st, "continue")]
 
     def s_If(self, s, st):
-        c = self.truth(st, self.eval(s.test, st))
+        c = self.cond(s.test, st)
         cs = z3.simplify(c)
         if z3.is_true(cs):
             return self.exec_block(s.body, st)
@@ -939,6 +978,7 @@ class Executor(Exec):
             self.call_contract(st, c, base, [v], {}, setter)
             return [(st, "normal")]
         self.inlined.add(key)
+        self.in_inline = getattr(self, "in_inline", 0) + 1
         body = strip_docstring(setter.node.body)
         pname = setter.node.args.args[1].arg
         saved = (st.env, self.module, self.defcls)
@@ -950,6 +990,7 @@ class Executor(Exec):
             outs = self.exec_block(body, st)
             inner_exits = self.exits
         finally:
+            self.in_inline -= 1
             self.exits = saved_exits
             self.module, self.defcls = saved[1], saved[2]
         res = []
